@@ -249,6 +249,7 @@ def curved(chk, rng):
         if float(np.asarray(sh.centroid)[0]) != 1.0:
             chk.violation("caller-array-stored", dict(cls=name, what="mutating the centre array passed to the constructor moved the shape"))
     input_forms(chk, rng)
+    curved_input_forms(chk)
     # Polygon normal array untouched
     nrm = np.array([0.0, 0.0, 2.0])
     S.Polygon(np.array([[0, 0, 0], [1, 0, 0], [1, 1, 0], [0, 1, 0.]]), normal=nrm)
@@ -301,6 +302,40 @@ def input_forms(chk, rng):
                     arg += 7.0
                     if not np.array_equal(np.asarray(sh.vertices, float), before):
                         chk.violation("caller-array-stored", dict(desc, what="changing the array passed to the constructor afterwards moved the shape"))
+
+
+def curved_input_forms(chk):
+    """Curved shapes: the centre given as a tuple of ints / an integer array / a list is the same centre as the float array - every
+    property and the point / angle / wave-vector queries must agree."""
+    import coxeter
+    from .. import shapes as Z
+
+    S = coxeter.shapes
+    ci = (3, -2, 5)
+    ctors = [("Circle", lambda c: S.Circle(1.5, c)), ("Ellipse", lambda c: S.Ellipse(1.5, 0.75, c)),
+             ("Sphere", lambda c: S.Sphere(1.25, c)), ("Ellipsoid", lambda c: S.Ellipsoid(1.5, 0.75, 2.0, c))]
+    P = np.array(ci, float) + np.array([[0.1, 0.2, 0.0], [0.7, -0.1, 0.0], [2.5, 0.0, 0.0], [0.0, 0.0, 0.3], [0.4, 0.3, 0.9]])
+    Q = np.array([[0.3, -0.2, 0.5], [1.0, 0.0, 0.0], [0.0, 0.0, 0.0]])
+    for name, mk in ctors:
+        ref = mk(np.array(ci, float))
+        o_ref = Z.observe(ref)
+        for form, arg in (("tuple of ints", tuple(ci)), ("integer array", np.array(ci)), ("list of floats", [float(x) for x in ci])):
+            st, sh = C.excname(mk, arg)
+            chk.case([name, "centre-form", form], True)
+            desc = dict(cls=name, form=form, centre=list(ci))
+            if st != "ok":
+                chk.violation("valid-input-form-rejected", dict(desc, error=st)); continue
+            o = Z.observe(sh)
+            bad = [k for k in o_ref if k not in o or not Z.values_close(o[k], o_ref[k], 1e-13, 1e-13)]
+            for qn, fn in (("is_inside", lambda x: np.asarray(x.is_inside(P), bool).tolist()),
+                           ("distance_to_surface", lambda x: np.asarray(x.distance_to_surface(np.array([0.3, 2.0, -1.0])), float).round(13).tolist()),
+                           ("compute_form_factor_amplitude", lambda x: np.round(np.asarray(x.compute_form_factor_amplitude(Q.copy())), 12).tolist())):
+                if hasattr(type(ref), qn):
+                    a, b = C.excname(fn, sh), C.excname(fn, ref)
+                    if a[0] != b[0] or (a[0] == "ok" and a[1] != b[1]):
+                        bad.append(qn)
+            if bad:
+                chk.violation("input-form-changes-shape", dict(desc, differing=sorted(bad)[:8]))
 
 
 def extra_coverage(chk):
